@@ -709,10 +709,6 @@ func (s *Session) SetUnmarshaller(unmarshaller Unmarshaller) {
 }
 
 func (s *Session) Stop() (err error) {
-	defer func() {
-		s.eventHandler.Clean()
-	}()
-
 	err = s.Logout()
 	if err != nil {
 		return fmt.Errorf("sendWithErrorCheck logout request: %w", err)
